@@ -381,3 +381,22 @@ Example C17_ex_reverse_hypotheses :
   fin 1000%float /\ fin 0%float /\ (val 0%float <= val 1000%float)%R /\ fin (1000 - 0)%float /\ fin h /\ fin (of_Z 85 * h)%float /\
   fin (of_Z 86 * h)%float /\ alt_ok (cell_alt 85 h 0) 26 /\ alt_ok (cell_alt 86 h 0) 26.
 Proof. exact reverse_hyps_example. Qed.
+
+(* ---- the regenerated cell height of convertBitToVerticalID (GeneratedF.convertBitToVerticalID_voxelHeight): the regenerated cell
+   altitudes are k / k+1 regenerated heights above the lower end, consecutive cells share their face bit for bit, the height depends on
+   neither the cell nor the output zoom and is not negative on an ordered finite range ---- *)
+Theorem C17_gen_cell_altitudes_over_generated_height : forall vz k oz (mx mn : pfloat),
+  gen_cell_bottom vz k oz mx mn = cell_alt k (gen_cell_height vz k oz mx mn) mn /\
+  gen_cell_top vz k oz mx mn = cell_alt (k + 1) (gen_cell_height vz k oz mx mn) mn /\
+  (forall k' oz', gen_cell_height vz k' oz' mx mn = gen_cell_height vz k oz mx mn) /\
+  gen_cell_top vz k oz mx mn = gen_cell_bottom vz (k + 1) oz mx mn.
+Proof. exact gen_cell_altitudes_over_generated_height. Qed.
+Print Assumptions C17_gen_cell_altitudes_over_generated_height.
+Theorem C17_gen_cell_height_is_not_negative : forall vz k oz (mx mn : pfloat), 0 <= vz <= 35 -> fin mx -> fin mn -> (val mn <= val mx)%R ->
+  fin (mx - mn)%float -> fin (gen_cell_height vz k oz mx mn) -> (0 <= val (gen_cell_height vz k oz mx mn))%R.
+Proof. exact gen_cell_height_nonneg. Qed.
+Print Assumptions C17_gen_cell_height_is_not_negative.
+Example C17_gen_cell_height_evaluated :
+  gen_cell_height 8 3 25 1000%float 0%float = 3.90625%float /\ gen_cell_bottom 8 3 25 1000%float 0%float = 11.71875%float /\
+  gen_cell_top 8 3 25 1000%float 0%float = 15.625%float.
+Proof. exact gen_cell_height_evaluated. Qed.
